@@ -529,7 +529,7 @@ pub fn check(rep: &Report) {
                                 rep.distinct(crate::rng::fnv64(show_case(&c).as_bytes()));
                                 rep.count(&format!("builtin={}", c.name), 1);
                                 if c.args.iter().any(|a| matches!(a, Arg::Bin(_, s) if *s != 0)) { rep.count("cases_with_rope_shaped_argument", 1); }
-                                if idx % 9973 == 0 { rep.sample(json!({"case": show_case(&c), "model": show_expect(&model(&c))})); }
+                                if rep.want_sample() { rep.sample(json!({"case": show_case(&c), "model": show_expect(&model(&c))})); }
                             }
                         }
                     }
